@@ -166,8 +166,8 @@ func verifExec(tx database.Tx, q string, args ...any) {
 // VerifC09Sweep: one part id in a symbolic situation, then GC runs.
 func VerifC09Sweep() {
 	db := verifNewDB()
-	store := &verifStore{}
-	stores, err := partstore.NewNamedPartStores(store, nil, nil)
+	store, cold := &verifStore{}, &verifStore{}
+	stores, err := partstore.NewNamedPartStores(store, map[string]partstore.PartStore{"cold": cold}, map[string]string{"GLACIER": "cold"})
 	verifMust(err)
 	reg, err := sqliteRegistry.NewRepository()
 	verifMust(err)
@@ -184,7 +184,9 @@ func VerifC09Sweep() {
 		age = 7200
 	}
 	p, other := verifPartID(age, 1), verifPartID(7200, 2)
-	verifIDs = []partstore.PartId{p, other}
+	coldOrphan := verifPartID(7200, 3)
+	verifIDs = []partstore.PartId{p, other, coldOrphan}
+	cold.ids = append(cold.ids, coldOrphan)
 	inStore := verifBool("in-store")
 	refs := verifPick("parts-rows", 0, 2)
 	regRow := verifPick("registry-row", -1, 2) // -1: no row, else ref_count
@@ -232,6 +234,7 @@ func VerifC09Sweep() {
 		return tx.SqlTx().QueryRowContext(ctx, "SELECT COUNT(*) FROM part_dedup_index WHERE part_id = $1", p.String()).Scan(&ddCount)
 	}))
 	verifAssert(!store.has(other), "an unreferenced part older than the grace window survived a GC run")
+	verifAssert(!cold.has(coldOrphan), "an unreferenced old part in a non-default store survived a GC run")
 	switch {
 	case refs > 0:
 		verifCover("referenced")
